@@ -93,7 +93,11 @@ def run_python(recorded, updates):
     for i, (p, t) in recorded.items():
         ops[sid(i)] = Operation(operation_id=sid(i), operation_type=OperationType[t], status=OperationStatus.STARTED,
                                 parent_id=None if p is None else sid(p))
-    st = ExecutionState("arn", "tok", ops, service_client=None)
+    # the filter does not depend on whether the invocation is still replaying its history: half of the cases run in
+    # REPLAY mode (a later invocation), chosen by the case itself so that a replay file reproduces it
+    from aws_durable_execution_sdk_python.state import ReplayStatus
+    st = ExecutionState("arn", "tok", ops, service_client=None,
+                        replay_status=ReplayStatus.REPLAY if (len(updates) + len(recorded)) % 2 else ReplayStatus.NEW)
     acc = []
     for i, p, t, a in updates:
         pid = None if p is None else ("" if p == "" else sid(p))
@@ -185,7 +189,8 @@ def run_concurrent(ctx, parent, threads, seed, schedule=None, component="orphan.
         from aws_durable_execution_sdk_python.exceptions import OrphanedChildException
         from aws_durable_execution_sdk_python.lambda_service import OperationAction, OperationType, OperationUpdate
         from aws_durable_execution_sdk_python.state import ExecutionState
-        st = ExecutionState("arn", "tok", {}, service_client=None)
+        from aws_durable_execution_sdk_python.state import ReplayStatus
+        st = ExecutionState("arn", "tok", {}, service_client=None, replay_status=ReplayStatus.REPLAY if seed % 2 else ReplayStatus.NEW)
 
         def worker(seq):
             def f():
